@@ -3,6 +3,8 @@ package main
 import (
 	"fmt"
 	"go/ast"
+	"go/token"
+	"math/big"
 	"strings"
 )
 
@@ -10,37 +12,175 @@ import (
 func init() {
 	bo := "jsonclient/backoff.go"
 	cl := "jsonclient/client.go"
-	register(genFile{name: "Retry", imports: []string{"CTV.Basic.I64"}, units: []unit{
+	register(genFile{name: "Retry", imports: []string{"CTV.Basic.I64", "CTV.Basic.ErrKind"}, units: []unit{
 		{"maxMultiplier", constKernel(bo, "maxMultiplier", "maxMultiplier", intLit)},
 		{"maxJitter", constKernel(cl, "maxJitter", "maxJitter", durLit)},
 		{"backoff.set", funcKernel(bo, "backoff.set", "backoffSet",
 			"(bNotBefore bMultiplier now_ : Int) (override : Option Int)", "Int × Int × Int",
-			Spec{Kind: "i64", Ret: "state", StateVars: []string{"bNotBefore", "bMultiplier"}, Ignore: []string{"b.mu."},
+			Spec{Kind: "i64", Canon: true, ParamNames: []string{"override"}, Ret: "state", StateVars: []string{"bNotBefore", "bMultiplier"}, Ignore: []string{"b.mu."},
 				Vars: map[string]string{"b.notBefore": "bNotBefore", "b.multiplier": "bMultiplier"},
 				Repl: map[string]string{"override != nil": "override.isSome", "*override": "(override.getD 0)", "maxMultiplier": "maxMultiplier"}})},
 		{"waitForBackoff.dur", waitDur(cl)},
-		{"PostAndParseWithRetry.switch", retrySwitch(cl)},
-		{"PostAndParseWithRetry.retryAfterSeconds", retryAfterSeconds(cl)},
+		// one iteration of the retry loop, statement by statement, whatever its shape (if/else + switch, one tagless switch, helpers):
+		// (how the iteration ends: .ok = returned success / .passthrough = returned the error it was given / .fresh = returned an
+		// RspError; what backoff.set was called with, if it was; whether the iteration returned at all — false = go round again)
+		{"PostAndParseWithRetry.step", foreverBodyKernel(cl, "JSONClient.PostAndParseWithRetry", "retryStep",
+			"(postErr errCanceled errDeadline : Bool) (status : Int) (raPresent secsOk : Bool) (seconds_ : Int) (dateOk : Bool) (date_ now_ : Int) (waitFails : Bool)",
+			"ErrKind × Option (Option Int) × Bool", "(ErrKind.ok, set_, false)",
+			Spec{Kind: "i64", Canon: true, Lazy: true, Inline: true, AddrIsSome: true, Ret: "errkind", StateVars: []string{"set_", "true"}, Status: httpStatus,
+				Prelude:  "let set_ : Option (Option Int) := none\n  ",
+				Ignore:   []string{"c.logger.", "klog."},
+				ErrCalls: map[string]string{"c.PostAndParse": "postErr"},
+				Effects:  map[string]string{"c.backoff.set": "set_ := some ($0)"},
+				InitCond: map[string]string{
+					`retryAfter := httpRsp.Header.Get("Retry-After") ; retryAfter != ""`: "raPresent",
+					"seconds, err := strconv.Atoi(retryAfter) ; err == nil":              "secsOk",
+					"date, err := time.Parse(time.RFC1123, retryAfter) ; err == nil":     "dateOk",
+					`seconds, err := strconv.Atoi(httpRsp.Header.Get("Retry-After")) ; err == nil`:          "secsOk",
+					`date, err := time.Parse(time.RFC1123, httpRsp.Header.Get("Retry-After")) ; err == nil`: "dateOk",
+					"err := c.waitForBackoff(ctx) ; err != nil":                          "waitFails"},
+				// an error equal to a context error is in particular non-nil
+				Repl: map[string]string{"err == context.Canceled": "(postErr && errCanceled)", "err == context.DeadlineExceeded": "(postErr && errDeadline)", "httpRsp.StatusCode": "status",
+					"zero:*time.Duration": "(none : Option Int)", `httpRsp.Header.Get("Retry-After") == ""`: "(!raPresent)", `httpRsp.Header.Get("Retry-After") != ""`: "raPresent",
+					`retryAfter == ""`: "(!raPresent)", `retryAfter != ""`: "raPresent", "math.MaxInt64": "(9223372036854775807 : Int)", "math.MinInt64": "(-9223372036854775808 : Int)"}})},
 	}})
 }
 
-// waitDur translates `dur := <expr>; if dur < 0 { dur = 0 }` at the top of waitForBackoff.
+// waitDur translates waitForBackoff up to the point where the timer is armed: the statements before `time.NewTimer(x)` (or
+// `time.After(x)`), and x as the result. The random draw `rand.Intn(n)` is the input jitterMs_; that n is maxJitter in
+// milliseconds is checked by evaluating the argument (a constant expression over maxJitter) — see constMs.
 func waitDur(rel string) func() string {
 	return func() string {
 		fd := mustFunc(rel, "JSONClient.waitForBackoff")
-		if len(fd.Body.List) < 2 {
-			panic(bail{rel + ": waitForBackoff too short"})
+		file := parseFile(rp(rel))
+		t := &tr{sp: Spec{Kind: "i64", Ret: "tuple", Lazy: true, Canon: true, ParamNames: []string{"ctx"},
+			Repl: map[string]string{"c.backoff.until()": "bNotBefore"}, CallRepl: map[string]string{"rand.Intn": "jitterMs_"}}, file: file}
+		t.prepare(fd)
+		k, arg := -1, ast.Expr(nil)
+		for i, st := range fd.Body.List {
+			ast.Inspect(st, func(n ast.Node) bool {
+				if c, ok := n.(*ast.CallExpr); ok && k < 0 {
+					if f := norm(src(c.Fun)); (f == "time.NewTimer" || f == "time.After") && len(c.Args) == 1 {
+						k, arg = i, c.Args[0]
+					}
+				}
+				return true
+			})
+			if k >= 0 {
+				break
+			}
 		}
-		t := &tr{sp: Spec{Kind: "i64", Ret: "tuple",
-			Repl: map[string]string{"c.backoff.until()": "bNotBefore", "rand.Intn(int(maxJitter.Seconds()*1000))": "jitterMs_", "rand.Intn(int(maxJitter.Seconds() * 1000))": "jitterMs_"}}}
-		body := t.block(fd.Body.List[:2], "dur_", "  ")
-		// the jitter bound: rand.Intn(n) draws from [0, n) with n = int(maxJitter.Seconds()*1000)
-		if !strings.Contains(src(fd.Body.List[0]), "rand.Intn(int(maxJitter.Seconds()*1000))") {
-			panic(bail{rel + ": jitter draw is no longer rand.Intn(int(maxJitter.Seconds()*1000)): " + src(fd.Body.List[0])})
+		if k < 0 {
+			panic(bail{rel + ": waitForBackoff arms no timer (time.NewTimer / time.After)"})
 		}
-		return fmt.Sprintf("/-- generated from %s func waitForBackoff: `%s; %s`; jitterMs_ is the value of rand.Intn(maxJitter in ms) -/\ndef waitDur (bNotBefore now_ jitterMs_ : Int) : Int :=\n  %s\n",
-			rel, src(fd.Body.List[0]), src(fd.Body.List[1]), body)
+		// the bound of the jitter draw
+		var bound ast.Expr
+		n := 0
+		ast.Inspect(fd.Body, func(nd ast.Node) bool {
+			if c, ok := nd.(*ast.CallExpr); ok && norm(src(c.Fun)) == "rand.Intn" && len(c.Args) == 1 {
+				bound = c.Args[0]
+				n++
+			}
+			return true
+		})
+		if n != 1 {
+			panic(bail{fmt.Sprintf("%s: expected exactly one rand.Intn draw in waitForBackoff, found %d", rel, n)})
+		}
+		ms, ok := constMs(file, bound)
+		if !ok {
+			panic(bail{rel + ": cannot evaluate the bound of the jitter draw: " + src(bound)})
+		}
+		// translate the prefix; the timer's argument is the value
+		pre := fd.Body.List[:k]
+		if as, ok := fd.Body.List[k].(*ast.AssignStmt); !ok || len(as.Rhs) != 1 {
+			_ = as
+		}
+		tailStmt := &ast.ReturnStmt{Results: []ast.Expr{arg}}
+		body := t.block(append(append([]ast.Stmt{}, pre...), tailStmt), "(0 : Int)", "  ")
+		return fmt.Sprintf("/-- generated from %s func waitForBackoff: the duration the timer is armed with; jitterMs_ is the value of the rand.Intn draw -/\ndef waitDur (bNotBefore now_ jitterMs_ : Int) : Int :=\n  %s\n\n"+
+			"/-- generated from %s func waitForBackoff: the bound of the jitter draw `rand.Intn(%s)`, evaluated (milliseconds) -/\ndef jitterBoundMs : Int := %d\n",
+			rel, body, rel, src(bound), ms)
 	}
+}
+
+// constMs evaluates a constant integer expression built from integer literals, time units (as nanoseconds), package-level
+// constants of the file, `* /`, int(…)/time.Duration(…) conversions and d.Seconds() — exactly, as a rational.
+func constMs(file *ast.File, e ast.Expr) (int64, bool) {
+	v, ok := constRat(file, e, 0)
+	if !ok || !v.IsInt() {
+		return 0, false
+	}
+	return v.Num().Int64(), true
+}
+
+func constRat(file *ast.File, e ast.Expr, depth int) (*big.Rat, bool) {
+	if depth > 8 {
+		return nil, false
+	}
+	switch x := e.(type) {
+	case *ast.BasicLit:
+		r, ok := new(big.Rat).SetString(x.Value)
+		return r, ok
+	case *ast.ParenExpr:
+		return constRat(file, x.X, depth+1)
+	case *ast.SelectorExpr:
+		if u, ok := timeUnits[src(x)]; ok {
+			r, ok := new(big.Rat).SetString(u)
+			return r, ok
+		}
+	case *ast.Ident:
+		for _, d := range file.Decls {
+			if gd, ok := d.(*ast.GenDecl); ok && gd.Tok == token.CONST {
+				for _, sp := range gd.Specs {
+					vs := sp.(*ast.ValueSpec)
+					for i, n := range vs.Names {
+						if n.Name == x.Name && i < len(vs.Values) {
+							return constRat(file, vs.Values[i], depth+1)
+						}
+					}
+				}
+			}
+		}
+	case *ast.BinaryExpr:
+		a, ok1 := constRat(file, x.X, depth+1)
+		b, ok2 := constRat(file, x.Y, depth+1)
+		if ok1 && ok2 {
+			switch x.Op {
+			case token.MUL:
+				return new(big.Rat).Mul(a, b), true
+			case token.QUO:
+				if b.Sign() != 0 {
+					return new(big.Rat).Quo(a, b), true
+				}
+			case token.ADD:
+				return new(big.Rat).Add(a, b), true
+			case token.SUB:
+				return new(big.Rat).Sub(a, b), true
+			}
+		}
+	case *ast.CallExpr:
+		f := norm(src(x.Fun))
+		if (f == "int" || f == "int64" || f == "time.Duration") && len(x.Args) == 1 {
+			v, ok := constRat(file, x.Args[0], depth+1)
+			if ok && v.IsInt() {
+				return v, true
+			}
+			return nil, false
+		}
+		if sel, ok := x.Fun.(*ast.SelectorExpr); ok && len(x.Args) == 0 {
+			v, ok := constRat(file, sel.X, depth+1)
+			if ok {
+				switch sel.Sel.Name {
+				case "Seconds":
+					return new(big.Rat).Quo(v, big.NewRat(1000000000, 1)), true
+				case "Milliseconds":
+					q := new(big.Rat).Quo(v, big.NewRat(1000000, 1))
+					return q, true
+				}
+			}
+		}
+	}
+	return nil, false
 }
 
 // assignKernelIn: like assignKernel but the assignment is identified by its right-hand side containing `marker`.
